@@ -424,10 +424,12 @@ func (tx *Tx) buildBPTreeIdx(bucket string, entry, e *Entry, off int64, fileID i
 	} else {
 		if _, ok := tx.db.BPTreeIdx[bucket]; !ok {
 			tx.db.BPTreeIdx[bucket] = NewTree()
+			tx.db.BPTreeIdx[bucket].scanLiveOnly = true
 		}
 
 		if tx.db.BPTreeIdx[bucket] == nil {
 			tx.db.BPTreeIdx[bucket] = NewTree()
+			tx.db.BPTreeIdx[bucket].scanLiveOnly = true
 		}
 		_ = tx.db.BPTreeIdx[bucket].Insert(entry.Key, e, &Hint{
 			fileID:  fileID,
